@@ -20,39 +20,50 @@ CUR = None  # the active recorder (None: hooks are silent)
 
 
 class Hooks:
+    """Recording / fault-injecting notification hooks.  They chain to the next class in the MRO, so hooks that a
+    library class defines itself (the mixins' are no-ops) still run."""
+
     __slots__ = ()
 
     def _pre_detach(self, parent):
         if CUR is not None:
             CUR.hook("pre_detach", self, parent)
+        super()._pre_detach(parent)
 
     def _post_detach(self, parent):
         if CUR is not None:
             CUR.hook("post_detach", self, parent)
+        super()._post_detach(parent)
 
     def _pre_attach(self, parent):
         if CUR is not None:
             CUR.hook("pre_attach", self, parent)
+        super()._pre_attach(parent)
 
     def _post_attach(self, parent):
         if CUR is not None:
             CUR.hook("post_attach", self, parent)
+        super()._post_attach(parent)
 
     def _pre_detach_children(self, children):
         if CUR is not None:
             CUR.hook("pre_detach_children", self, children)
+        super()._pre_detach_children(children)
 
     def _post_detach_children(self, children):
         if CUR is not None:
             CUR.hook("post_detach_children", self, children)
+        super()._post_detach_children(children)
 
     def _pre_attach_children(self, children):
         if CUR is not None:
             CUR.hook("pre_attach_children", self, children)
+        super()._pre_attach_children(children)
 
     def _post_attach_children(self, children):
         if CUR is not None:
             CUR.hook("post_attach_children", self, children)
+        super()._post_attach_children(children)
 
 
 class NM(Hooks, NodeMixin):
